@@ -3774,10 +3774,20 @@ class BoutMesh(Mesh):
                 ixseps2 = self.nx
             elif len(self.x_startinds) == 4:
                 # Two separatrices
-                if self.equilibrium.double_null_type == "lower":
+                double_null_type = self.equilibrium.double_null_type
+                if getattr(
+                    self.equilibrium.user_options, "start_at_upper_outer", False
+                ):
+                    # y-index starts from the upper outer target, so the X-point that
+                    # BOUT++ calls 'lower' (the first one in y, at jyseps1_1) is the
+                    # upper one
+                    double_null_type = {"lower": "upper", "upper": "lower"}.get(
+                        double_null_type, double_null_type
+                    )
+                if double_null_type == "lower":
                     ixseps1 = self.x_startinds[1]
                     ixseps2 = self.x_startinds[2]
-                elif self.equilibrium.double_null_type == "upper":
+                elif double_null_type == "upper":
                     ixseps1 = self.x_startinds[2]
                     ixseps2 = self.x_startinds[1]
                 else:
